@@ -3,22 +3,27 @@
    What is proved: for the LOCKED interleaving model of `fastrandombytes` (`Model/Prng18.lean`: the step sequence the
    current code performs on init/key/nonce under its mutex), for EVERY schedule, any number of threads and any number
    of requests per thread: the nonces used are exactly n0 … n0+N-1 (mod 2^64), each once; the key is seeded exactly
-   once and every block uses that key; the run is equivalent to serving the requests one at a time in the order of
+   once and every block uses that key COMPLETELY WRITTEN - the seeding step is split into its real steps (the call,
+   the key delivered in any number of pieces, the flag written before or after them: `Seeding`), and the theorems
+   hold for every such `Seeding`; the run is equivalent to serving the requests one at a time in the order of
    mutex acquisition; every pair of conflicting accesses to init/key/nonce is ordered by the mutex.  For the UNLOCKED
-   model (the code before the fix) concrete schedules of two requests reuse a nonce / seed twice.
+   model (the code before the fix) concrete schedules of two requests reuse a nonce / seed twice; for a double-checked
+   variant whose flag is read outside the mutex (Model/Prng18Dcl.lean) concrete schedules serve a first request from
+   the all-zero / a partially written key when the flag is written before the key.
    What is NOT proved (hence "partial"): that the real execution is an interleaving of these atomic steps (granularity
    is a modelling choice; std::mutex, the compiler and the memory model are trusted), and the Salsa20 keystream itself
    (a block is identified with its (nonce, key)).  Real schedules are observed under ThreadSanitizer by
    harness/conc18.cpp, where every returned block is identified among the reference keystreams. -/
 import NflVerif.Model.Prng18
+import NflVerif.Model.Prng18Dcl
 import NflVerif.Proofs.Prng18Run
 namespace Nfl.C18
 open Nfl.Prng18
 
-variable (seedVal reqs : Nat → Nat) (n0 : Nat)
+variable (sd : Seeding) (seedVal reqs : Nat → Nat) (n0 : Nat)
 
 /-- Once everything has been served no request is pending. -/
-theorem complete_pend_nil {s : State} (hi : Inv seedVal reqs n0 s) (hc : Complete s) : s.pend = [] := by
+theorem complete_pend_nil {s : State} (hi : Inv sd seedVal reqs n0 s) (hc : Complete s) : s.pend = [] := by
   rw [List.eq_nil_iff_forall_not_mem]
   intro x hx
   exact (hi.b.pendOk x hx).1 (hc x.1).1
@@ -26,12 +31,12 @@ theorem complete_pend_nil {s : State} (hi : Inv seedVal reqs n0 s) (hc : Complet
 /-- **Nonces are distinct and gap-free.**  Locked model, every complete schedule of N = `s.out.length` requests:
     the multiset of nonces used to generate keystream is exactly {n0, …, n0+N-1} (as 64-bit counters). -/
 theorem nonces_distinct_gapfree (hn0 : n0 < W) :
-    ∀ (sched : List Nat) (s : State), run seedVal (init reqs n0) sched = some s → Complete s →
+    ∀ (sched : List Nat) (s : State), run sd seedVal (init reqs n0) sched = some s → Complete s →
       (s.out.map (·.nonce)).Perm ((List.range' n0 s.out.length).map (· % W)) := by
   intro sched s hr hc
-  have hi := reach_inv seedVal reqs n0 hn0 sched s hr
+  have hi := reach_inv sd seedVal reqs n0 hn0 sched s hr
   have hp := hi.b.perm
-  rw [complete_pend_nil seedVal reqs n0 hi hc, List.append_nil] at hp
+  rw [complete_pend_nil sd seedVal reqs n0 hi hc, List.append_nil] at hp
   have hlen : s.out.length = s.acq.length := by simpa using hp.length_eq
   have h2 := hp.map Prod.snd
   rw [hi.a.acqI, ← hlen] at h2
@@ -39,54 +44,64 @@ theorem nonces_distinct_gapfree (hn0 : n0 < W) :
 
 /-- … hence no two requests ever share a nonce (as long as fewer than 2^64 requests are made). -/
 theorem nonces_nodup (hn0 : n0 < W) :
-    ∀ (sched : List Nat) (s : State), run seedVal (init reqs n0) sched = some s → Complete s → s.out.length ≤ W →
+    ∀ (sched : List Nat) (s : State), run sd seedVal (init reqs n0) sched = some s → Complete s → s.out.length ≤ W →
       (s.out.map (·.nonce)).Nodup := by
   intro sched s hr hc hN
-  exact (nonces_distinct_gapfree seedVal reqs n0 hn0 sched s hr hc).nodup_iff.mpr (range_mod_nodup n0 _ hN)
+  exact (nonces_distinct_gapfree sd seedVal reqs n0 hn0 sched s hr hc).nodup_iff.mpr (range_mod_nodup n0 _ hN)
 
 /-- every request of every thread is served exactly once (`reqs t` blocks for thread `t`) -/
 theorem all_served (hn0 : n0 < W) :
-    ∀ (sched : List Nat) (s : State), run seedVal (init reqs n0) sched = some s → Complete s →
+    ∀ (sched : List Nat) (s : State), run sd seedVal (init reqs n0) sched = some s → Complete s →
       ∀ t, (served s t).length = reqs t := by
   intro sched s hr hc t
-  have hi := reach_inv seedVal reqs n0 hn0 sched s hr
+  have hi := reach_inv sd seedVal reqs n0 hn0 sched s hr
   have := hi.b.count t
   simp [(hc t).1, (hc t).2] at this
   simpa [served] using this
 
-/-- **The key is seeded exactly once.**  After EVERY schedule (complete or not): `randombytes` has been called at
-    most once; as soon as one block has been generated it has been called exactly once; every block generated so far
-    used the key delivered by that one call. -/
+/-- **The key is seeded exactly once.**  After EVERY schedule (complete or not), for every way of carrying out the
+    seeding step (any number of pieces, flag before or after the key): `randombytes` has been called at most once; as
+    soon as one block has been generated it has been called exactly once; every block generated so far used the key
+    delivered by that one call, completely written (`miss = 0`: no piece of it was missing). -/
 theorem seeded_once (hn0 : n0 < W) :
-    ∀ (sched : List Nat) (s : State), run seedVal (init reqs n0) sched = some s →
-      s.seeds ≤ 1 ∧ (s.out ≠ [] → s.seeds = 1) ∧ ∀ o ∈ s.out, o.key = seedVal 0 := by
+    ∀ (sched : List Nat) (s : State), run sd seedVal (init reqs n0) sched = some s →
+      s.seeds ≤ 1 ∧ (s.out ≠ [] → s.seeds = 1) ∧ ∀ o ∈ s.out, o.key = seedVal 0 ∧ o.miss = 0 := by
   intro sched s hr
-  have hi := reach_inv seedVal reqs n0 hn0 sched s hr
-  refine ⟨?_, ?_, hi.a.outKey⟩
-  · cases h : s.init with
-    | true => have := (hi.a.seedT h).1; omega
-    | false => rcases (hi.a.seedF h).2.2 with h0 | ⟨h1, _⟩ <;> omega
-  · intro hne
-    cases h : s.init with
-    | true => exact (hi.a.seedT h).1
-    | false => exact absurd (hi.a.seedF h).1 hne
+  have hi := reach_inv sd seedVal reqs n0 hn0 sched s hr
+  exact ⟨hi.a.seedsLe, hi.a.outSeeds, hi.a.outKey⟩
+
+/-- **No request generates from a key that is still being written** - the start of the process's history.  Under the
+    whole-function mutex, in EVERY schedule, a thread that is about to generate (or anywhere past the seeding branch
+    of its request) sees the flag set, one call of `randombytes` made and ALL pieces of the delivered key in place;
+    and while some thread is inside the seeding step (between its first write to flag/key and the last) every other
+    thread is idle or blocked on the mutex and nothing has been generated.  This holds also for `flagFirst = true`
+    (a helper that marks the flag before it fills the secret): the mutex, not the flag, is what protects the key. -/
+theorem key_complete (hn0 : n0 < W) :
+    ∀ (sched : List Nat) (s : State), run sd seedVal (init reqs n0) sched = some s →
+      (∀ t, (s.thr t).pc = .gen → s.init = true ∧ s.seeds = 1 ∧ s.key = seedVal 0 ∧ s.miss = 0) ∧
+      (∀ h, (s.thr h).pc = .seed ∨ (s.thr h).pc = .fill ∨ (s.thr h).pc = .wrInit →
+        s.lock = some h ∧ s.out = [] ∧ ∀ t, t ≠ h → (s.thr t).pc = .idle) := by
+  intro sched s hr
+  have hi := reach_inv sd seedVal reqs n0 hn0 sched s hr
+  refine ⟨fun t ht => hi.a.pastI t (by simp [ht, Pc.pastInit]), fun h hh => hi.a.seedingI h ?_⟩
+  rcases hh with hh | hh | hh <;> simp [hh, Pc.seeding]
 
 /-- **Linearizable.**  Every complete schedule is equivalent to serving the requests ONE AT A TIME in the order in
     which they acquired the mutex (`order`): `order` contains each thread as often as it made requests, and every
     thread received, request by request in its program order, exactly the nonces the sequential service `seqServe`
-    in that order hands to it – all generated with the once-seeded key. -/
+    in that order hands to it – all generated with the once-seeded, completely written key. -/
 theorem linearizable (hn0 : n0 < W) :
-    ∀ (sched : List Nat) (s : State), run seedVal (init reqs n0) sched = some s → Complete s →
+    ∀ (sched : List Nat) (s : State), run sd seedVal (init reqs n0) sched = some s → Complete s →
       ∃ order : List Nat, order = s.acq.map (·.1) ∧
         (∀ t, (order.filter (· == t)).length = reqs t) ∧
         (∀ t, served s t = ((seqServe n0 order).filter (fun x => x.1 == t)).map (·.2)) ∧
-        ∀ o ∈ s.out, o.key = seedVal 0 := by
+        ∀ o ∈ s.out, o.key = seedVal 0 ∧ o.miss = 0 := by
   intro sched s hr hc
-  have hi := reach_inv seedVal reqs n0 hn0 sched s hr
+  have hi := reach_inv sd seedVal reqs n0 hn0 sched s hr
   refine ⟨_, rfl, ?_, ?_, hi.a.outKey⟩
   · intro t
     have ho := hi.b.order t
-    have hcount := all_served seedVal reqs n0 hn0 sched s hr hc t
+    have hcount := all_served sd seedVal reqs n0 hn0 sched s hr hc t
     simp [(hc t).1] at ho
     rw [← hcount, ← ho, List.filter_map]
     simp [tickets, Function.comp_def]
@@ -99,15 +114,15 @@ theorem linearizable (hn0 : n0 < W) :
 /-- the sequential order that explains a history respects every thread's program order: along each thread the
     nonces increase (as long as the 64-bit counter does not wrap) -/
 theorem thread_monotone (hn0 : n0 < W) :
-    ∀ (sched : List Nat) (s : State), run seedVal (init reqs n0) sched = some s → Complete s →
+    ∀ (sched : List Nat) (s : State), run sd seedVal (init reqs n0) sched = some s → Complete s →
       n0 + s.out.length ≤ W → ∀ t, (served s t).Pairwise (· < ·) := by
   intro sched s hr hc hW t
-  have hi := reach_inv seedVal reqs n0 hn0 sched s hr
+  have hi := reach_inv sd seedVal reqs n0 hn0 sched s hr
   have ho := hi.b.order t
   simp [(hc t).1] at ho
   rw [← ho]
   have hp := hi.b.perm
-  rw [complete_pend_nil seedVal reqs n0 hi hc, List.append_nil] at hp
+  rw [complete_pend_nil sd seedVal reqs n0 hi hc, List.append_nil] at hp
   have hlen : s.out.length = s.acq.length := by simpa using hp.length_eq
   have hacq : (s.acq.map Prod.snd).Pairwise (· < ·) := by
     rw [hi.a.acqI, List.pairwise_map]
@@ -126,19 +141,19 @@ theorem thread_monotone (hn0 : n0 < W) :
     section that precedes the critical section the later one's thread had last entered (key reads by the generator
     after `unlock` conflict only with the single seeding write, which lies in an earlier critical section). -/
 theorem no_conflict (hn0 : n0 < W) :
-    ∀ (sched : List Nat) (s : State), run seedVal (init reqs n0) sched = some s →
+    ∀ (sched : List Nat) (s : State), run sd seedVal (init reqs n0) sched = some s →
       s.trace.Pairwise (fun e1 e2 => Conflict e1 e2 → LockOrdered e1 e2) := by
   intro sched s hr
-  exact (reach_inv seedVal reqs n0 hn0 sched s hr).c.pw
+  exact (reach_inv sd seedVal reqs n0 hn0 sched s hr).c.pw
 
 /-- every write to the generator state is made while holding the mutex; the only accesses made without it are reads
     of the key; at most one thread is ever inside (mutual exclusion) -/
 theorem writes_locked (hn0 : n0 < W) :
-    ∀ (sched : List Nat) (s : State), run seedVal (init reqs n0) sched = some s →
+    ∀ (sched : List Nat) (s : State), run sd seedVal (init reqs n0) sched = some s →
       (∀ e ∈ s.trace, (e.isWrite = true → e.inside = true) ∧ (e.inside = false → e.var = .key ∧ e.isWrite = false)) ∧
       ∀ t, (s.thr t).pc.inside = true ↔ s.lock = some t := by
   intro sched s hr
-  have hi := reach_inv seedVal reqs n0 hn0 sched s hr
+  have hi := reach_inv sd seedVal reqs n0 hn0 sched s hr
   exact ⟨hi.c.trShape, hi.a.lockI⟩
 
 /-! ### the unlocked model: documented witnesses of the old defect -/
@@ -169,24 +184,28 @@ theorem unlocked_lost_update :
 
 def exReqs : Nat → Nat := fun t => if t = 0 then 2 else if t = 1 then 1 else 0
 
+/-- the repository's order (flag after the key), the key delivered in two pieces -/
+def exSd : Seeding := ⟨2, false⟩
+
 /-- an interleaved complete schedule of the locked model exists (thread 1 acquires the mutex between thread 0's two
     requests and generates last): 3 requests, nonces 5,6,7, one seeding -/
 def exSched : List Nat :=
-  [0, 0, 0, 0, 0, 0, 0, 0,        -- thread 0: lock … unlock   (first request of the process: seeds)
+  [0, 0, 0, 0, 0, 0, 0, 0, 0, 0,  -- thread 0: lock … unlock   (first request of the process: seeds, the key arrives in 2 pieces)
    1,                             -- thread 1: lock
    0,                             -- thread 0: generate (outside the lock, while thread 1 is inside)
    1, 1, 1, 1, 1,                 -- thread 1: read init, my := nonce, n := nonce, nonce := n+1, unlock
    0, 0, 0, 0, 0, 0,              -- thread 0: second request lock … unlock
    0, 1]                          -- both generate
 
-example : (run sv (init exReqs 5) exSched).map (fun s => (s.out.map (fun o => (o.tid, o.nonce, o.key)), s.seeds, s.nonce))
+example : (run exSd sv (init exReqs 5) exSched).map (fun s => (s.out.map (fun o => (o.tid, o.nonce, o.key)), s.seeds, s.nonce))
     = some ([(0, 5, 1000), (0, 7, 1000), (1, 6, 1000)], 1, 8) := by decide
-example : (run sv (init exReqs 5) exSched).map (fun s => s.acq) = some [(0, 5), (1, 6), (0, 7)] := by decide
-example : (run sv (init exReqs 5) exSched).map (fun s => ((s.thr 0).pc, (s.thr 0).todo, (s.thr 1).pc, (s.thr 1).todo))
+example : (run exSd sv (init exReqs 5) exSched).map (fun s => s.out.map (·.miss)) = some [0, 0, 0] := by decide
+example : (run exSd sv (init exReqs 5) exSched).map (fun s => s.acq) = some [(0, 5), (1, 6), (0, 7)] := by decide
+example : (run exSd sv (init exReqs 5) exSched).map (fun s => ((s.thr 0).pc, (s.thr 0).todo, (s.thr 1).pc, (s.thr 1).todo))
     = some (.idle, 0, .idle, 0) := by decide
 
 /-- `lock` is not enabled while the mutex is held: a schedule that tries is not a schedule of the model -/
-example : run sv (init exReqs 5) [0, 1] = none := by decide
+example : run exSd sv (init exReqs 5) [0, 1] = none := by decide
 
 /-- the sequential specification on the acquisition order of the example -/
 example : seqServe 5 [0, 1, 0] = [(0, 5), (1, 6), (0, 7)] := by decide
@@ -195,8 +214,16 @@ example : seqServe 5 [0, 1, 0] = [(0, 5), (1, 6), (0, 7)] := by decide
     thread 0 and thread 1's later key read -/
 example : Conflict ⟨0, .key, true, true, 0⟩ ⟨1, .key, false, false, 1⟩ ∧ LockOrdered ⟨0, .key, true, true, 0⟩ ⟨1, .key, false, false, 1⟩ := by
   refine ⟨⟨by decide, rfl, Or.inl rfl⟩, rfl, by decide⟩
-example : (run sv (init exReqs 5) exSched).map (fun s => (s.trace.contains ⟨0, .key, true, true, 0⟩, s.trace.contains ⟨1, .key, false, false, 1⟩, s.trace.length))
-    = some (true, true, 17) := by decide
+example : (run exSd sv (init exReqs 5) exSched).map (fun s => (s.trace.contains ⟨0, .key, true, true, 0⟩, s.trace.contains ⟨1, .key, false, false, 1⟩, s.trace.length))
+    = some (true, true, 18) := by decide
+
+/-- the other order (flag first) under the same lock, key in two pieces: thread 1 asks for the mutex while thread 0 is
+    between the flag and the key - `lock` is not enabled - and is served after it, from the complete key -/
+example : run ⟨2, true⟩ sv (init exReqs 5) [0, 0, 0, 0, 0, 1] = none := by decide
+example : (run ⟨2, true⟩ sv (init exReqs 5) [0, 0, 0, 0, 0]).map (fun s => (s.init, s.key, s.miss, (s.thr 0).pc))
+    = some (true, 1000, 1, .fill) := by decide
+example : (run ⟨2, true⟩ sv (init exReqs 5) exSched).map (fun s => (s.out.map (fun o => (o.tid, o.nonce, o.key, o.miss)), s.seeds))
+    = some ([(0, 5, 1000, 0), (0, 7, 1000, 0), (1, 6, 1000, 0)], 1) := by decide
 
 /-! ### a lock-free split counter: correct away from the carries of its pieces, wrong across them
 
@@ -233,5 +260,48 @@ theorem split_counter_skip :
     ∃ sched, (srun B24 (sinit B24 (B24 - 2)) sched).map (fun s => s.out)
       = some [(0, 16777215), (1, 33554430)] :=
   ⟨[1, 0, 0, 0, 0, 1, 1, 1], by decide⟩
+
+/-! ### double-checked seeding with a lock-free hot path: safe or not depending on the order of flag and key
+
+   (Model/Prng18Dcl.lean; witness of the fault class the first-request family of harness/conc18.cpp is generated for.
+   The repository's code is the locked model above, for which `key_complete` holds in every schedule and either order.) -/
+
+/-- the result of a run of the two-thread double-checked model: blocks (thread, nonce, key, missing pieces), calls of
+    randombytes, final counter, both threads finished -/
+def dclResult (s : DState) : List (Nat × Nat × Nat × Nat) × Nat × Nat × DPc × DPc :=
+  (s.out.map (fun o => (o.tid, o.nonce, o.key, o.miss)), s.seeds, s.nonce, s.t0.pc, s.t1.pc)
+
+/-- **A first request is served from the ALL-ZERO key.**  Flag written before the key, key in two pieces.  Thread 0
+    checks (`init = 0`), takes the mutex, re-checks, sets the flag; thread 1's unlocked check now reads 1, it skips the
+    mutex, reserves nonce 0 and generates - `randombytes` has not even been called: the block comes from key 0 (the
+    zero-initialised static array), not from the process key 1000.  Afterwards everything looks right: one seeding,
+    nonces 0 and 1 each once, both requests served, no unsynchronised access. -/
+theorem dcl_flag_first_zero_key :
+    ∃ sched, (drun ⟨2, true⟩ sv (dinit 0) sched).map dclResult
+      = some ([(1, 0, 0, 0), (0, 1, 1000, 0)], 1, 2, .done, .done) :=
+  ⟨[0, 0, 0, 0, 1, 1, 1, 0, 0, 0, 0, 0, 0], by decide⟩
+
+/-- **… or from a PARTIALLY WRITTEN key**: thread 1 checks after the first of the two pieces has arrived and
+    generates before the second: key 1000 with one piece missing. -/
+theorem dcl_flag_first_partial_key :
+    ∃ sched, (drun ⟨2, true⟩ sv (dinit 0) sched).map dclResult
+      = some ([(1, 0, 1000, 1), (0, 1, 1000, 0)], 1, 2, .done, .done) :=
+  ⟨[0, 0, 0, 0, 0, 0, 1, 1, 1, 0, 0, 0, 0], by decide⟩
+
+/-- with the flag written AFTER the key the same interleavings are harmless (instances, not a theorem about all
+    schedules of the double-checked model: they show that the witnesses need the order, nothing else): thread 1's
+    check reads 0, it asks for the mutex - not enabled while thread 0 holds it - and once thread 0 has released it,
+    re-checks under the mutex and generates from the complete key -/
+theorem dcl_flag_last_same_prefix_blocks :
+    drun ⟨2, false⟩ sv (dinit 0) [0, 0, 0, 0, 1, 1] = none ∧
+    (drun ⟨2, false⟩ sv (dinit 0) [0, 0, 0, 0, 0, 1, 0, 0, 0, 1, 1, 1, 1, 1, 0, 0]).map dclResult
+      = some ([(1, 0, 1000, 0), (0, 1, 1000, 0)], 1, 2, .done, .done) := by
+  decide
+
+/-- sequentially (thread 0, then thread 1) the flag-first variant is right: the defect needs the first-request race -/
+theorem dcl_flag_first_sequential :
+    (drun ⟨2, true⟩ sv (dinit 0) [0, 0, 0, 0, 0, 0, 0, 0, 0, 0, 1, 1, 1]).map dclResult
+      = some ([(0, 0, 1000, 0), (1, 1, 1000, 0)], 1, 2, .done, .done) := by
+  decide
 
 end Nfl.C18
